@@ -821,6 +821,35 @@ pub fn c20_process_part(ctx: &Ctx, scanned: &AtomicU64) -> Result<u64, String> {
                 let text = tmpl.replace("{X}", x).replace("{P}", &port.to_string());
                 cases.push((seed_hex.clone(), what.to_string(), text.into_bytes(), port));
             }
+            // every other setting given a value of an unexpected YAML type (null, tilde, integer for a
+            // string, sequence, mapping, boolean, real), written after and before the seed line
+            if cases.len() < 200 {
+                let keys = ["interface", "port", "batch_size", "status_interval", "fault_percentage", "num_workers", "client_stats", "persistence_directory", "kms_protection", "health_check_port"];
+                for key in keys {
+                    for val in ["", "~", "0", "[]", "{}", "true", "1.5"] {
+                        for seed_first in [true, false] {
+                            let port = free_port();
+                            let mut lines: Vec<String> = vec![];
+                            if key != "interface" {
+                                lines.push("interface: 127.0.0.1".into());
+                            }
+                            if key != "port" {
+                                lines.push(format!("port: {}", port));
+                            }
+                            let seed_line = format!("seed: {}", x);
+                            let odd = format!("{}: {}", key, val);
+                            if seed_first {
+                                lines.insert(0, seed_line);
+                                lines.insert(1, odd);
+                            } else {
+                                lines.push(odd);
+                                lines.push(seed_line);
+                            }
+                            cases.push((seed_hex.clone(), format!("value-type:{}={:?}:{}", key, val, if seed_first { "after-seed" } else { "before-seed" }), (lines.join("\n") + "\n").into_bytes(), port));
+                        }
+                    }
+                }
+            }
         }
         crate::util::par_for(cases.len(), 1, |k, _| {
             let (seed_hex, what, content, port) = &cases[k];
